@@ -6,7 +6,31 @@ import os
 VERIF = os.path.dirname(os.path.dirname(os.path.abspath(__file__)))
 
 # id -> (technique, level text, level note, design ref)
+CORE_NOTE = 'Trusted: harness-owned input/action/output plugins around the real Pipeline, streams, pools, Batcher and RetriableBatcher; action chain limited to a filter and a join-like action; small-scope model (<=4 events, 2 processors, 2 workers); real schedules are sampled (scripted + random), not exhaustive; property monitors evaluated by TLC on every recorded step.'
+
 CHECKS = {
+    "C01": ("TLC model checking of Pipeline.tla (design model, one action per critical section) + TLC-generated schedules (spec-mutant "
+            "counterexamples, simulation) replayed into the real pipeline + TLC trace validation of every run against PipelineObs monitors",
+            "The commit-frontier invariant is checked exhaustively on the design model (all interleavings of reader, 2 processors, 2 workers, "
+            "discards, retries, dead queue in small scope); the same invariant is then evaluated by TLC on every step of traces recorded from the "
+            "real code under schedules that TLC constructed to distinguish an implementation with each commit-ordering mechanism from one without.",
+            CORE_NOTE, "DESIGN.md §6 C01"),
+    "C02": ("same machinery as C01; monitors: per-stream commit order, strictly increasing offsets, no duplicate, every accepted event "
+            "committed xor silently dropped at idle",
+            "Order/once/accounted invariants checked exhaustively on Pipeline.tla and evaluated by TLC on every recorded step of the real pipeline "
+            "under constructed and random schedules (several sources/streams, hold/collapse runs, refusals).", CORE_NOTE, "DESIGN.md §6 C02"),
+    "C05": ("same machinery as C01 with capacity-1..3 scenarios on both pools; monitors: owned events <= capacity, single owner per event "
+            "object, pool counter within [0,capacity], zero in use and no waiter at idle",
+            "Pool-occupancy invariants checked on Pipeline.tla and evaluated by TLC on traces of the real pools (std and low_memory) at capacities "
+            "down to 1 with concurrent readers, discards, holds and decode failures.", CORE_NOTE, "DESIGN.md §6 C05"),
+    "C08": ("same machinery as C01 with batcher-centred scenarios; monitors: batch size bound, batches committed in sequence order each after "
+            "its own send returned, every added event committed exactly once",
+            "Batch-order invariants checked on Pipeline.tla (all completion orders of 2 workers) and evaluated by TLC on traces of the real Batcher "
+            "under schedules in which a later batch's send returns first.", CORE_NOTE, "DESIGN.md §6 C08"),
+    "C09": ("same machinery as C01 with failing sends, retries 0..2, with/without dead queue; monitors: attempts before give-up, no commit "
+            "while retrying, one Fail per event, committed by the dead queue alone / error callback once and committed by main once",
+            "Retry/dead-queue routing invariants checked on Pipeline.tla (all outcome sequences within the failure bound) and evaluated by TLC on "
+            "traces of the real RetriableBatcher with scripted and random failures.", CORE_NOTE, "DESIGN.md §6 C09"),
     "C06": ("TLA+ transcription of the read loop model-checked against a declarative line/offset oracle (TLC, exhaustive "
             "small scope); every TLC-exported case replayed on the real worker.work and compared",
             "TLC proves on the whole small-scope case space (all contents over {x,\\n} up to the bound x all splits into appends x "
